@@ -288,6 +288,18 @@ def rule_structural_discharges(ctx):
             o["key"] = "PANIC-TAB:MAP:" + o["key"].split(":", 1)[1]
             o["rule"] = "PANIC-TAB"
             ctx.obls.append(o)
+    # DOM: `p2f(t2).expect(..)` / the panic arm of natural_head_interval sit behind is_term_regular_of_second_kind(t): that test must say what
+    # the definition says (an interval whose two bounds are regular of the first kind and free of symbols / #inf / #sup), and p2f must be total
+    # on terms of the first kind: the regularity equations and the p2f cases of C08
+    from . import c08
+    for rule_, prefixes in ((c08.rule_regularity, ("REG:",)), (c08.rule_p2f, ("P2F:", "TPL:p2f"))):
+        sub = type(ctx)(ctx.prop, ctx.tier, ctx.facts)
+        rule_(sub)
+        for o in sub.obls:
+            o = dict(o)
+            o["key"] = "PANIC-TAB:DOM:" + o["key"]
+            o["rule"] = "PANIC-TAB"
+            ctx.obls.append(o)
     # CONSTARG: binop arguments
     val = fx.fn("tau_star::val")
     for fn, allowed in (("tau_star::construct_total_function_formula", {"Add", "Subtract", "Multiply"}), ("tau_star::construct_partial_function_formula", {"Divide", "Modulo"})):
